@@ -20,11 +20,11 @@ checks = {
    note="Bounded by depth (chain length <= depth-1). Where the statement is silent (state after refusing a never-used token) the model adopts the implementation's answer and counts a dont_care."),
  "C08": dict(level="model_checking", engine="HIST", ref="DESIGN.md §5 C08",
    technique="explicit-state BFS over API histories with revocation by owner / foreign / unauthenticated callers and all token_type_hints on tokens in every liveness state; store-dump equality for 'changes nothing'",
-   text="Every history up to the stated depth over <=2 grants where each token ever seen can be revoked by owner, foreign client or a caller failing authentication, with 6 hint values (absent, access_token, refresh_token, garbage, id_token, authorize_code); oracle: owner => token and sibling dead in all later sweeps; foreign => unauthorized_client and byte-identical store dump; unauthenticated => unchanged; already invalid => success and unchanged. Plus: a refresh request validated before and completed after the owner's accepted revocation (of the presented refresh token / of its sibling access token) must not yield live tokens.",
+   text="Every history up to the stated depth over <=2 grants where each token ever seen can be revoked by owner, foreign client or a caller failing authentication, with 6 hint values (absent, access_token, refresh_token, garbage, id_token, authorize_code); the verdict is the endpoint's HTTP answer; oracle: owner => token and sibling dead in all later sweeps; foreign => unauthorized_client and byte-identical store dump; unauthenticated => unchanged; already invalid => success and unchanged. Plus: a refresh request validated before and completed after the owner's accepted revocation (of the presented refresh token / of its sibling access token) must not yield live tokens.",
    note="Bounded by depth; 'other tokens of the same grant' after an owner revocation are not pinned by the statement and are adopted from introspection."),
  "C09": dict(level="model_checking", engine="HIST", ref="DESIGN.md §5 C09",
    technique="explicit-state BFS over API histories of all grant types; in every reached state the introspection endpoint is queried for every token under a grid of hints, scopes and caller credentials and compared with the model",
-   text="In every state reached by histories up to the stated depth (code, hybrid, password, device, client credentials, OIDC; HMAC and JWT; refresh-token validation on/off; 3 scope strategies) every token ever seen is introspected and active/payload compared with the reference model; refresh tokens are also presented by a foreign client (replay detection must kill the family whoever replays); callers include a public client's id with some secret.",
+   text="In every state reached by histories up to the stated depth (code, hybrid, password, device, client credentials, OIDC; HMAC and JWT; refresh-token validation on/off; 3 scope strategies) every token ever seen is introspected and active/payload compared with the reference model; refresh tokens are also presented by a foreign client (replay detection must kill the family whoever replays); callers include a public client's id with some secret and the token itself as bearer in other spellings (known finding).",
    note="Bounded by depth and alphabets in evidence.bounds; token kind is read from the IntrospectionResponder because the HTTP writer does not render it."),
 }
 
@@ -64,7 +64,7 @@ checks.update({
 checks.update({
  "C07": dict(level="exploration", engine="ENUM", ref="DESIGN.md §5 C07",
    technique="exhaustive enumeration of credential kind x lifetime source x issue offset x history position x age x exp encoding x session implementation under a virtual clock on the real provider; exhaustive override table",
-   text="21 credential kinds (code; access tokens from 8 grants incl. JWT; refresh tokens from 3 grants and unlimited; device/user code; request_uri; JWT-bearer and client assertions with int/float/fractional exp; access token used as bearer; tokens after an abandoned refresh/redemption) x 8 lifetime sources (server default, three configured triples, per-client override, session-provided access-token expiry, unlimited refresh tokens alone and under a finite override) x 3 (11 thorough) sub-second issue offsets x 3 history positions x 10 (22) ages on both sides of expiry x 2 session implementations: >=2 s after expiry must be refused wherever presented, >=2 s before an advertised expiry must be honoured, advertised lifetime within 1 s of the effective one; GetEffectiveLifespan checked for all 12 fields x 7 grants x 4 token types.",
+   text="22 credential kinds (code; access tokens from 8 grants incl. JWT; refresh tokens from 3 grants and unlimited; device/user code; request_uri; JWT-bearer and client assertions with int/float/fractional exp; access token used as bearer; tokens after an abandoned refresh/redemption) x 10 lifetime sources (server default, three configured triples, per-client override, session-provided access-token expiry, unlimited refresh tokens alone / under a finite override / under a finite override of the code grant only, finite default with an unlimited per-client refresh-grant override) x 3 (11 thorough) sub-second issue offsets x 3 history positions x 10 (22) ages on both sides of expiry x 2 session implementations: >=2 s after expiry must be refused wherever presented, >=2 s before an advertised expiry must be honoured, advertised lifetime within 1 s of the effective one; GetEffectiveLifespan checked for all 12 fields x 7 grants x 4 token types.",
    note="+-1 s around expiry is don't-care; the clock is the overlay virtual clock (all time.Now/Since/Until in ory/fosite are rewritten at build time)."),
 })
 
@@ -78,8 +78,8 @@ checks.update({
 checks.update({
  "C10": dict(level="exploration", engine="ENUM", ref="DESIGN.md §5 C10",
    technique="exhaustive enumeration of registration x endpoint/grant x credential transport x secret relation (x skip-auth setting) on the real provider with real bcrypt, judged by an independent reference of who is authenticated; proxy-store log and store-dump equality for 'neither issues nor invalidates'",
-   text="13 client registrations (plain with 0/1/2 rotated secrets, public with/without secret hash, confidential with empty hash, OIDC clients for each token_endpoint_auth_method, special characters) x 9 endpoints/grants x 10 transports (basic, post, both, id only, nothing, malformed / unencoded header, private_key_jwt assertion with right/wrong key, assertion+basic) x 8 secret relations: a request is processed only for a presentation that authenticates the registration; every rejected one writes to no code/token table, leaves the store dump unchanged and a victim token active; public clients never pass client_credentials; only jwt-bearer with the explicit setting runs without client authentication, and then the issued token is not bound to the confidential client of the failed presentation. private_key_jwt clients registered by jwks_uri run against the real JWKS fetcher and cache (in-memory transport): 6 look-alike URI pairs x 6 warm-up histories; an assertion signed with the other client's key is always refused.",
-   note="Mixed presentations are don't-care; bcrypt cost 4."),
+   text="14 client registrations (plain with 0/1/2 rotated secrets or only empty rotated slots, public with/without secret hash, confidential with empty hash, OIDC clients for each token_endpoint_auth_method, special characters) x 9 endpoints/grants x 15 transports (basic, post, both, id only, nothing, malformed / unencoded header, private_key_jwt assertion with right/wrong key, assertion+basic, expired / not-yet-valid assertion, split credentials, credentials in the URL query) x 8 secret relations: a request is processed only for a presentation that authenticates the registration; a refusal carries invalid_client or invalid_request; every rejected one writes to no code/token table, leaves the store dump unchanged and a victim token active; public clients never pass client_credentials; only jwt-bearer with the explicit setting runs without client authentication, and then the issued token is not bound to the confidential client of the failed presentation. private_key_jwt clients registered by jwks_uri run against the real JWKS fetcher and cache (in-memory transport): 6 look-alike URI pairs x 6 warm-up histories; an assertion signed with the other client's key is always refused.",
+   note="Mixed presentations are don't-care; bcrypt cost 4. Known finding: the PAR endpoint accepts credentials from the URL query string (see known_findings.json)."),
 })
 
 checks.update({
@@ -92,7 +92,7 @@ checks.update({
 checks.update({
  "C14": dict(level="exploration", engine="ENUM", ref="DESIGN.md §5 C14",
    technique="exhaustive enumeration of flow x key/algorithm x nonce x auth_time x max_age x prompt x id_token_hint x preset expiry x extra-claims on the real provider; every ID token verified with the public key and recomputed from the same response",
-   text="8 OpenID flows (code, implicit x2, hybrid x3, refresh chains of 3, device) x 7 key/algorithm pairs (ES256/384/512, RS256/384/512, PS256) x nonce x the auth_time/max_age/prompt/hint/preset-expiry/extras grid: every ID token in any response verifies under the server key, names the client in aud, carries session subject and issuer, echoes the nonce, expires within the configured lifetime (unless preset), and its at_hash / c_hash equal the left half of the alg-selected hash of the access token / code of the same response; refresh drops c_hash; unsatisfied max_age / prompt (incl. multi-valued) / hint, empty subject, openid not requested or requested but not granted, or a past preset expiry issue nothing.",
+   text="8 OpenID flows (code, implicit x2, hybrid x3, refresh chains of 3, device) x 7 key/algorithm pairs (ES256/384/512, RS256/384/512, PS256) x nonce x the auth_time/max_age (absent, 0, 300, 1000, 300 as a JSON number inside a signed request object)/prompt/hint/preset-expiry/extras grid: every ID token in any response verifies under the server key, names the client in aud, carries session subject and issuer, echoes the nonce, expires within the configured lifetime (unless preset), and its at_hash / c_hash equal the left half of the alg-selected hash of the access token / code of the same response; refresh drops c_hash; unsatisfied max_age / prompt (incl. multi-valued) / hint, empty subject, openid not requested or requested but not granted, or a past preset expiry issue nothing.",
    note="Session alg header is set to the key's algorithm (integrator duty); refreshed ID tokens may omit the nonce (OIDC Core 12.2) but must not change it."),
 })
 
@@ -110,14 +110,14 @@ checks.update({
    note="Sentinel answers (not-found / inactive) at Get*/Revoke* calls are another store state, not a failure (don't-care). Record equality ignores session expiry fields. The transactional store is context-sensitive: a write issued during an open transaction with a context that does not carry it survives the rollback."),
  "C20": dict(level="exploration", engine="ENUM+FAULT", ref="DESIGN.md §5 C20",
    technique="exhaustive enumeration of error x hostile text x format x debug x writer with re-parsing of the bytes written; scan of every storage call of every flow for usable secrets; storage-error text injection at every storage call",
-   text="38 errors (all exported RFC errors + a plain Go error) x hint/debug text from 16 hostile fragments (pairs in quick, triples in thorough) x legacy/new format x debug exposure x 9 writers: JSON re-parsed, redirects re-parsed (no injected parameter, state round-trips, no CR/LF in headers), form_post pages tokenised (only the expected inputs, no injected element), status matches code, debug detail only when enabled, no-store/no-cache everywhere. Storage: 17 flows (incl. every kind of credential presented in every credential slot of the token, introspection and revocation endpoints) x HMAC/JWT — no key or stored form value equals or contains a client secret, password, PKCE verifier, assertion or complete live code/token. A recognisable storage error text injected at every storage call of 19 flows never reaches the client.",
+   text="38 errors (all exported RFC errors + a plain Go error) x hint/debug text from 16 hostile fragments (pairs in quick, triples in thorough) x legacy/new format x debug exposure x 9 writers: JSON re-parsed, redirects re-parsed (no injected parameter, state round-trips, no CR/LF in headers), form_post pages tokenised (only the expected inputs, no injected element), status matches code, debug detail only when enabled, no-store/no-cache everywhere. Storage: 17 flows (incl. every kind of credential presented in every credential slot of the token, introspection and revocation endpoints) x HMAC/JWT — no key or stored form value equals or contains a client secret, password, PKCE verifier, assertion or complete live code/token. A recognisable storage error text injected at every storage call of 20 flows never reaches the client and the answer carries an RFC error code; the same for the transport error of a failed request_uri fetch.",
    note="Known findings: OpenID Connect sessions keyed by the complete authorization code (storage contract). The user password necessarily reaches Authenticate."),
 })
 
 checks.update({
  "C19": dict(level="model_checking", engine="SCHED", ref="DESIGN.md §5 C19",
    technique="stateless depth-first schedule exploration of the real provider + reference store under a cooperative scheduler with iterative preemption bounding; vector-clock happens-before race detection over shim lock edges and overlay access hooks; brute-force linearizability of store-operation triples",
-   text="19 API scenarios (redeem||redeem, OIDC device poll||poll, refresh||refresh, refresh||revoke||introspect, refresh||revoke, redeem||introspect||authorize, poll||poll, device-auth||poll, PAR-use||PAR-use, authorize||authorize and token||token on a default-constructed and a populated Config, issue||introspect, PAR-push||device-auth, issue||device-auth, mint||mint||mint) at lock granularity (preemption bound 2/1 quick, 3/2 thorough) and at storage-call granularity (all interleavings where feasible, else bound 4/6); plus every multiset of 3 store operations per table (332 triples) from a populated state. Every complete execution: no deadlock, no panic, no unordered conflicting access on instrumented fields, no lock still held after every request returned (leak), no duplicate token value, no inactive token handed out without a concurrent invalidation, and for store triples results + final dump equal some sequential permutation.",
+   text="23 API scenarios (redeem||redeem, OIDC device poll||poll, introspect||introspect for three session types, first use of every Config getter, refresh||refresh, refresh||revoke||introspect, refresh||revoke, redeem||introspect||authorize, poll||poll, device-auth||poll, PAR-use||PAR-use, authorize||authorize and token||token on a default-constructed and a populated Config, issue||introspect, PAR-push||device-auth, issue||device-auth, mint||mint||mint) at lock granularity (preemption bound 2/1 quick, 3/2 thorough) and at storage-call granularity (all interleavings where feasible, else bound 4/6); plus every multiset of 3 store operations per table (332 triples) from a populated state. Every complete execution: no deadlock, no panic, no unordered conflicting access on instrumented fields, no lock still held after every request returned (leak), no scenario in which nothing ever succeeds (vacuity guard), no duplicate token value, no inactive token handed out without a concurrent invalidation, and for store triples results + final dump equal some sequential permutation.",
    note="Races are decided for fields used inside pointer-receiver methods of ory/fosite types (a field of a stateful standard-library type such as hash.Hash counts as written on every use; map fields are additionally keyed by the map itself, also in value-receiver methods), for *url.URL variables whose RawQuery/Fragment a function assigns, and for package-level variables of slice/array/map/basic types (byte buffers count as written when handed to a call, also through a local slice of them); other memory, and the lazily created JWKS fetcher, are not observed. 2-3 goroutines."),
 })
 
